@@ -157,3 +157,18 @@ Proof.
   - apply N.eqb_eq in H. exact H.
   - discriminate.
 Qed.
+
+(* the signed array view returns a stored whole-byte index unchanged EXACTLY when its top bit is clear: the encoder must keep
+   the codes inside the signed range of the width it announces (pandas' code dtypes do; an unsigned narrowing does not) *)
+Theorem signed_view_exact k v : (1 <= k)%nat -> v < 2 ^ (8 * N.of_nat k) ->
+  (signed_view k v = Z.of_N v <-> v < 2 ^ (8 * N.of_nat k - 1)).
+Proof.
+  intros Hk Hv. unfold signed_view.
+  destruct (N.ltb_spec v (2 ^ (8 * N.of_nat k - 1))) as [L|L].
+  - split; [intros _; exact L | reflexivity].
+  - split; [|lia]. intros E.
+    assert (0 < 2 ^ (8 * Z.of_nat k))%Z by (apply Z.pow_pos_nonneg; lia). lia.
+Qed.
+
+Lemma signed_view_high_bit_refuted : exists v, v < 2 ^ 8 /\ signed_view 1 v <> Z.of_N v.
+Proof. exists 128. split; [reflexivity|]. vm_compute. discriminate. Qed.
